@@ -23,13 +23,23 @@ def cases(tier, seed):
     for i in range(n):
         kind, R = reg(rng)
         yield {'kind': 'cfg', 'G': C.to_json(rng.choice(pool)), 'R': F.to_json(R), 'as': kind}
+    for i in range(n // 3):
+        # two automata over the SAME State objects (or one automaton extended between two intersections)
+        R = F.random_dfa(rng, rng.choice([1, 2]), ['a', 'b']); R2 = F.random_dfa(rng, rng.choice([2, 3]), ['a', 'b'])
+        yield {'kind': 'shared', 'G': C.to_json(rng.choice(pool)), 'R': F.to_json(R), 'R2': F.to_json(R2)}
     for i in range(n):
         kind, R = reg(rng)
+        if rng.random() < 0.25:      # names that look like product names / an int and its string
+            R = F.random_dfa(rng, rng.choice([2, 3]), ['a', 'b'], names=rng.choice([['0; 1', '1', '0'], [1, '1', 2], ['q; r', 'r', 'q']])); kind = 'DFA'
+            Pp = P.random_pda(rng, reserved=0.0); ren = dict(zip(['q', 'r', 'p'], rng.choice([['p', 'p; 0', 'p; 0; 1'], ['1', 1, 2], ['q', 'q; q', 'r']])))
+            Pp = P.mk(ren[Pp[0]], Pp[1], [ren[f] for f in Pp[2]], [(ren[a_], b_, c_, ren[d_], e_) for a_, b_, c_, d_, e_ in Pp[3]])
+            yield {'kind': 'pda', 'P': P.to_json(Pp), 'R': F.to_json(R), 'as': kind}; continue
         yield {'kind': 'pda', 'P': P.to_json(P.random_pda(rng, reserved=0.05)), 'R': F.to_json(R), 'as': kind}
 
 
 def check(case):
     if case['kind'] == 'types': return K.c11_types(), True, 1
+    if case['kind'] == 'shared': return K.c11_shared_states(C.from_json(case['G']), F.from_json(case['R']), F.from_json(case['R2'])), True, 1
     R = F.from_json(case['R'])
     if case['kind'] == 'cfg':
         g = C.from_json(case['G'])
